@@ -241,13 +241,12 @@ func NewFloatFromString(typ *types.FloatType, s string) (*Float, error) {
 			}
 		}
 	}
-	const base = 10
 	switch typ.Kind {
 	case types.FloatKindHalf:
 		const precision = 11
-		x, _, err := big.ParseFloat(s, base, precision, big.ToNearestEven)
+		x, err := parseDecimal(s, precision)
 		if err != nil {
-			return nil, errors.WithStack(err)
+			return nil, err
 		}
 		c := &Float{
 			Typ: typ,
@@ -256,9 +255,9 @@ func NewFloatFromString(typ *types.FloatType, s string) (*Float, error) {
 		return c, nil
 	case types.FloatKindFloat:
 		const precision = 24
-		x, _, err := big.ParseFloat(s, base, precision, big.ToNearestEven)
+		x, err := parseDecimal(s, precision)
 		if err != nil {
-			return nil, errors.WithStack(err)
+			return nil, err
 		}
 		c := &Float{
 			Typ: typ,
@@ -267,9 +266,9 @@ func NewFloatFromString(typ *types.FloatType, s string) (*Float, error) {
 		return c, nil
 	case types.FloatKindDouble:
 		const precision = 53
-		x, _, err := big.ParseFloat(s, base, precision, big.ToNearestEven)
+		x, err := parseDecimal(s, precision)
 		if err != nil {
-			return nil, errors.WithStack(err)
+			return nil, err
 		}
 		c := &Float{
 			Typ: typ,
@@ -279,6 +278,24 @@ func NewFloatFromString(typ *types.FloatType, s string) (*Float, error) {
 	default:
 		panic(fmt.Errorf("support for floating-point kind %v not yet implemented", typ.Kind))
 	}
+}
+
+// parseDecimal reads a decimal floating-point literal the way LLVM does: as a
+// correctly rounded double (overflowing to infinity), which is then converted
+// to the precision of the floating-point type.
+func parseDecimal(s string, prec uint) (*big.Float, error) {
+	f, err := strconv.ParseFloat(s, 64)
+	if err != nil {
+		if ne, ok := err.(*strconv.NumError); !ok || ne.Err != strconv.ErrRange {
+			return nil, errors.WithStack(err)
+		}
+	}
+	if math.IsNaN(f) {
+		return nil, errors.Errorf("invalid floating-point literal %q", s)
+	}
+	x := big.NewFloat(f)
+	x.SetPrec(prec)
+	return x, nil
 }
 
 // String returns the LLVM syntax representation of the constant as a type-value
